@@ -41,6 +41,16 @@ pub assume_specification[ u32::pow ](b: u32, e: u32) -> (r: u32)
     ensures  r == vstd::arithmetic::power::pow(b as int, e as nat);
 } // mod vp_std
 pub use vp_std::*;
+// Vec::drain(0..1).collect() and Vec::extend(Vec) are outside Verus' std specs: routed (logged rewrites) through these
+#[verifier::external_body]
+pub fn vp_take_first<T>(v: Vec<T>) -> (r: Vec<T>)
+    requires v@.len() >= 1
+    ensures r@ == v@.subrange(0, 1)
+{ let mut v = v; v.drain(0..1).collect() }
+#[verifier::external_body]
+pub fn vp_extend<T>(a: &mut Vec<T>, b: Vec<T>)
+    ensures final(a)@ == old(a)@ + b@
+{ a.extend(b) }
 #[verifier::external_type_specification]
 #[verifier::external_body]
 pub struct ExIoError(std::io::Error);
